@@ -18,6 +18,8 @@ def run(ctx):
     ctx.rule("R12-1", "expand_brace / expand_glob / expand_brace_range / expand_home act only on untagged tokens (E-TAG STRICT)")
     ctx.rule("R12-2", "every token inserted by a pass gets tag `\"` when its text contains a space, else the empty tag")
     ctx.rule("R12-3", "a pass that removes / inserts tokens walks its edit list in descending index order (.rev())")
+    ctx.rule("R12-5", "a word never vanishes: on every path on which expand_glob records a replacement list for a token, "
+                      "the list holds at least one word (the matches, or the pattern itself)")
     ctx.rule("R12-4", "the home directory is not interpreted as a regex replacement template")
     for crate in ctx.crates:
         res = etag.run_sites(ctx, "R12-1", crate, fn_filter=lambda p: p in PASSES)
@@ -31,6 +33,7 @@ def run(ctx):
                 tag_rule(ctx, crate, b)
             order_rule(ctx, crate, b)
         home_rule(ctx, crate)
+        nonempty_rule(ctx, crate)
 
 
 def tag_rule(ctx, crate, b):
@@ -120,3 +123,55 @@ def home_rule(ctx, crate):
         n += 1
     if not sinks:
         ctx.ob("R12-4", b.path, "expand_home uses no replacement template", True, crate=crate.kind, nontrivial=False)
+
+
+def nonempty_rule(ctx, crate):
+    b = crate.fn("shell::expand_glob")
+    if b is None:
+        return
+    from ..mir import FactWalker
+    # the per-token result vector and the edit list
+    rec = []
+    for bb, t, c in b.calls():
+        if last_seg(c) == "push" and "Vec" in c:
+            a = b.call_args(bb)
+            v = strip_sites(a[1]) if len(a) > 1 else None
+            if v is not None and v[0] == "agg" and v[1] == "tuple" and len(v[2]) == 2 and v[2][1][0] == "var" \
+                    and b.locals[v[2][1][1]]["ty"].startswith("std::vec::Vec<std::string::String"):
+                rec.append((bb, v[2][1]))
+    if not ctx.require(len(rec) == 1, "R12-5", "R12-5|%s|record" % b.path, "edit-list push of (idx, result) not found", b.path):
+        return
+    recbb, resvar = rec[0]
+    fills = {bb for bb, t, c in b.calls() if last_seg(c) == "push" and "Vec" in c and
+             mir.root_local_expr(b.call_args(bb)[0]) == resvar[1]}
+    inits = [bi for bi, si in b.defs.get(resvar[1], [])]
+    if not ctx.require(len(inits) == 1 and fills, "R12-5", "R12-5|%s|result" % b.path, "result vector not recognised", b.path):
+        return
+
+    def relevant(atom):
+        if atom[0] == "var" and b.locals[atom[1]]["ty"] == "bool":
+            return True
+        return atom[0] == "call" and last_seg(atom[1]) in ("is_none", "is_some", "is_empty") and any(
+            s_[0] == "call" and last_seg(s_[1]) in ("peek", "next") for s_ in mir.subexprs(atom))
+
+    w = FactWalker(b, relevant, cut_back_edges=False)
+    bad = []
+
+    def step(bb, st):
+        facts, filled = st
+        if bb in fills:
+            filled = True
+        if bb == recbb and not filled:
+            bad.append(facts)
+            return []
+        if bb == recbb:
+            return []
+        return [(nb, (f2, filled)) for nb, f2 in w.step(bb, facts)]
+
+    start = b.succs[inits[0]][0]
+    seen = mir.explore(b, start, (frozenset(), False), step)
+    ctx.paths_enumerated += len(seen)
+    ctx.ob("R12-5", b.path, "every recorded replacement list is non-empty (matches, or the pattern itself)", not bad,
+           key="R12-5|%s|nonempty" % b.path, where=b.loc(recbb), crate=crate.kind,
+           detail=None if not bad else "a path records an empty list: the word disappears from the command line "
+                                       "(e.g. a pattern matching only hidden files)")
